@@ -209,6 +209,11 @@ def scenario(h):
     h.check('values-not-consumed-by-flatten', 'seq_eq(s.values, y) and len(y) == %d' % nv, **env)
     s2 = h.call(h.getattr(h.call(h.get(D + '::scenario')), 'load'), full, npts)
     h.check('load-of-flatten-gives-an-equal-scenario', _same_measure('s2', npts) + ' and seq_eq(s2.values, y)', s2=s2, **env)
+    # a parameter vector WITHOUT appended values leaves the values a scenario already holds alone
+    t = h.call(h.get(D + '::scenario'))
+    h.exec_text('t.values = y', t=t, y=vals)
+    h.call(h.getattr(t, 'load'), part, npts)
+    h.check('load-without-appended-values-keeps-the-stored-values', _same_measure('t', npts) + ' and seq_eq(t.values, y)', t=t, **env)
 
 
 def _product_terms(npts):
